@@ -974,3 +974,10 @@ fn propagate_flags(buffer: &mut hb_buffer_t) {
         }
     });
 }
+
+/// Verification hooks (compiled only with `--cfg rb_verif`).
+#[cfg(rb_verif)]
+#[allow(unused_imports, dead_code, missing_docs)]
+pub mod verif_hooks {
+    use super::*;
+}
